@@ -83,6 +83,7 @@ func TestReplay(t *testing.T) {
 	if target == "" {
 		t.Skip("VERIF_REPLAY not set")
 	}
+	curT = t // the virtual-time checks host their bubbles on the running test
 	var files []string
 	if st, err := os.Stat(target); err == nil && st.IsDir() {
 		filepath.Walk(target, func(p string, info os.FileInfo, err error) error {
